@@ -4,10 +4,16 @@ package main
 import (
 	"verif/mc/harness"
 	"verif/mc/props/c04"
+	"verif/mc/props/c05"
+	"verif/mc/props/c11"
+	"verif/mc/props/c12"
 )
 
 func main() {
 	harness.Main(map[string]*harness.Prop{
 		"C04": c04.Prop,
+		"C05": c05.Prop,
+		"C11": c11.Prop,
+		"C12": c12.Prop,
 	})
 }
